@@ -4,6 +4,7 @@ pub mod c09;
 pub mod c10;
 pub mod c12;
 pub mod c13;
+pub mod c14;
 pub mod c17;
 pub mod c18;
 pub mod c19;
@@ -30,6 +31,7 @@ pub fn by_id(id: &str) -> Option<Box<dyn Check>> {
         "C17" => Some(Box::new(c17::C17)),
         "C12" => Some(Box::new(c12::C12)),
         "C13" => Some(Box::new(c13::C13)),
+        "C14" => Some(Box::new(c14::C14)),
         "C10" => Some(Box::new(c10::C10)),
         "C11" => Some(Box::new(histchecks::HistCheck { prop: "C11" })),
         "C08" => Some(Box::new(histchecks::HistCheck { prop: "C08" })),
